@@ -17,6 +17,7 @@ from dataclasses import dataclass, field
 
 from .cfg import calls_in
 from .core import Ctx
+from .inline import origin as _origin
 from .model import ClassInfo, FuncInfo, dotted_name, walk_no_nested
 from .q import unparse
 from .resolve import Resolved
@@ -410,7 +411,7 @@ class MayRaise:
             self.unmodelled.add(d)
             return set()
         raises = self.external[key]
-        if self.str_input(fi, call):
+        if self.str_input(_origin(self.ctx.repo, fi, call), call):
             return NARROW_BY_ARG.get((key, "builtins.str"), raises)
         if key == "builtins.next" and len(call.args) >= 2:
             return set()  # next(it, default) never raises StopIteration
@@ -470,15 +471,15 @@ class MayRaise:
                             _add(out, e, o)
                 elif name == "NotImplementedError" and (fi.is_abstract or self._all_subclasses_override(fi)):
                     pass
-                elif not self.infeasible(fi, n, name):
+                elif not self.infeasible(_origin(self.ctx.repo, fi, n), n, name):
                     _add(out, name, Origin(fi.qual, site, f"raise {name}"))
         elif isinstance(n, ast.Assert):
-            if not self.assert_ok(fi, n):
+            if not self.assert_ok(_origin(self.ctx.repo, fi, n), n):
                 _add(out, "AssertionError", Origin(fi.qual, site, f"assert {unparse(n.test)[:60]}"))
         elif isinstance(n, ast.Call):
             r = self.res.resolve_call(fi, n)
             for e, orgs in self._call_raises(fi, n, r).items():
-                if not self.infeasible(fi, n, e):
+                if not self.infeasible(_origin(self.ctx.repo, fi, n), n, e):
                     for o in orgs:
                         _add(out, e, o)
         elif isinstance(n, ast.Attribute) and isinstance(n.ctx, ast.Load):
